@@ -184,6 +184,10 @@ def recursion_order(ctx, o, ps: PassShape, pt):
     # a guard that only repeats the callee's own memo test (`if dep.id not in memo: pass(dep, ..)`) skips nothing the callee would do
     if lv and isinstance(memo_arg, ast.Name):
         conds_call = [(t, p) for t, p in conds_call if not (facts.cond_is(t, p, f"{lv}.id in {memo_arg.id}", want=False))]
+    # ... and a guard that keeps the recursion inside the WBS being scheduled (`if dep.wbs is task.wbs`) skips only tasks whose
+    # dates are input (outside tasks are never scheduled by this calc: C14.recursion_stays_in_wbs demands exactly this guard)
+    if lv:
+        conds_call = [(t, p) for t, p in conds_call if not sched._same_wbs_guard(t, p, lv, ps.task)]
     if len(conds_call) > len(conds_loop):
         o.refute(ps.f, c, c, "the recursive call on a dependency is conditional inside the loop")
         ok = False
